@@ -363,6 +363,73 @@ def check_sparse_model(ctx, n_cases):
             ctx.disagree("C13.run_sparse", case, str(impl)[:400], str(m)[:400])
             ctx.fail(["sparse", "wrong", "model"], "the wrapper stack reads %r, the proved model %r on %s" % (impl, m, case), case)
 
+def check_view_equality(ctx, n_cases):
+    """two views built by differently parameterised filters over the SAME materialised row objects are equal exactly when the eager rows they describe are equal"""
+    import coba.pipes.rows as R
+    rng = ctx.rng
+    for _ in range(n_cases):
+        sparse = rng.random() < 0.4
+        ncol = rng.randrange(2, 5); names = NAMES[:ncol]
+        raw = [[rng.randrange(0, 3) for _ in range(ncol)] for _ in range(rng.randrange(1, 4))]
+        def stage():
+            k = rng.choice(["drop", "drop", "encode", "label"])
+            if k == "drop": return ("drop", rng.sample(names, rng.randrange(1, ncol)))
+            if k == "encode": return ("encode", {nm: Enc(rng.choice([1, 2, 3]), rng.randrange(0, 3)) for nm in rng.sample(names, rng.randrange(1, ncol + 1))})
+            return ("label", rng.choice(names))
+        s1, s2 = stage(), stage()
+        case = dict(rows=raw, names=names, sparse=sparse, stage1=repr(s1), stage2=repr(s2))
+        ctx.count("view-equality:%s" % ("sparse" if sparse else "dense"), repr(case), True)
+        def eager(r, st):
+            d = dict(zip(names, r))
+            if st[0] == "drop": d = {k: v for k, v in d.items() if k not in st[1]}
+            elif st[0] == "encode": d = {k: (st[1][k](v) if k in st[1] else v) for k, v in d.items()}
+            else: d = {k: v for k, v in d.items() if k != st[1]}
+            return d if sparse else list(d.values())
+        def apply(st, base):
+            if st[0] == "drop": return list(R.DropRows(list(st[1])).filter(base))
+            if st[0] == "encode": return list(R.EncodeRows(dict(st[1])).filter(base))
+            return [v.feats for v in R.LabelRows(st[1], "c").filter(base)]
+        try:
+            base = [dict(zip(names, r)) for r in raw] if sparse else list(R.HeadRows(list(names)).filter([list(r) for r in raw]))
+            if sparse: base = list(R.EncodeRows({}).filter(base)) if False else [R.LazySparse(b) for b in base]      # row objects (not plain dicts) that both pipelines wrap
+            v1, v2 = apply(s1, base), apply(s2, base)
+            for r, a, b in zip(raw, v1, v2):
+                want = eager(r, s1) == eager(r, s2)
+                got = (a == b, b == a)
+                if got != (want, want):
+                    ctx.fail(["view-equality", "sparse" if sparse else "dense"], "views over one row object compare %r / %r; the eager rows are %r and %r" % (got[0], got[1], eager(r, s1), eager(r, s2)), case); break
+        except Exception as ex:
+            ctx.fail(["view-equality", "raises", errname(ex)], "raised %s: %s on %s" % (errname(ex), str(ex)[:100], case), case)
+
+def check_lazy_arff_dense(ctx, n_cases):
+    """lazy dense ARFF rows share one line reader whose dialect is settled by the lines it has seen: whatever order the rows are first touched in, every row reads as the file says"""
+    from coba.pipes.readers import ArffReader
+    rng = ctx.rng
+    for _ in range(n_cases):
+        ncol = rng.randrange(2, 4)
+        header = ["@relation r"] + ["@attribute s%d string" % i for i in range(ncol)] + ["@data"]
+        rows, exp = [], []
+        for _ in range(rng.randrange(2, 6)):
+            cells, vals = [], []
+            for _ in range(ncol):
+                v = rng.choice(["a", "b c", "it is", "x", "d e"])
+                style = rng.choice(["plain", "single", "double"]) if " " not in v else rng.choice(["single", "double"])
+                cells.append(v if style == "plain" else ("'%s'" % v if style == "single" else '"%s"' % v)); vals.append(v)
+            rows.append(",".join(cells)); exp.append(vals)
+        order = list(range(len(rows))); rng.shuffle(order)
+        case = dict(lines=header + rows, first_touched_in_order=order)
+        ctx.count("lazy-arff-dense", repr(case), len(rows) >= 2)
+        try:
+            got_rows = list(ArffReader().filter(iter(header + rows)))
+            got = {}
+            for j in order: got[j] = list(got_rows[j])
+            again = [list(r) for r in got_rows]
+        except Exception as ex:
+            ctx.fail(["lazy-arff-dense", "raises", errname(ex)], "raised %s: %s on %s" % (errname(ex), str(ex)[:100], case), case); continue
+        bad = [j for j in order if got[j] != exp[j] or again[j] != exp[j]]
+        if bad:
+            ctx.fail(["lazy-arff-dense", "order-dependent"], "rows first touched in the order %s: row %d reads %r (then %r), the file says %r" % (order, bad[0], got[bad[0]], again[bad[0]], exp[bad[0]]), case)
+
 def corpus(ctx):
     import coba.pipes.rows as R
     rows = [[1, 2, 3], [4, 5, 6]]
@@ -382,6 +449,8 @@ def run(ctx):
     check_dense(ctx, ctx.n(1500, 20000))
     check_sparse(ctx, ctx.n(500, 6000))
     check_sparse_model(ctx, ctx.n(800, 10000))
+    check_view_equality(ctx, ctx.n(300, 4000))
+    check_lazy_arff_dense(ctx, ctx.n(300, 4000))
     check_lazy_dense(ctx, ctx.n(500, 6000))
     check_lazy_sparse(ctx, ctx.n(400, 5000))
 
